@@ -421,6 +421,46 @@ func c10Case(r *mon.Run, t *c10Tree, c mon.Case, dir string) {
 			}
 		}
 	}
+	// the same File saved again to the same name after the target was changed behind its back (overwritten, removed,
+	// replaced by a directory): the second Save must bring the file back, or report that it cannot
+	if expErr == nil {
+		for _, change := range []string{"overwritten", "removed", "longer", "directory"} {
+			path := fresh("again-" + change + ".go")
+			f, _, _ = t.build(0)
+			if err, p := guardErr(func() error { return f.Save(path) }); err != nil || p != "" {
+				viol("save-failed", "first Save to a fresh path failed: %v %s", err, p)
+				break
+			}
+			switch change {
+			case "overwritten":
+				os.WriteFile(path, []byte("package other\n"), 0o644)
+			case "removed":
+				os.Remove(path)
+			case "longer":
+				os.WriteFile(path, append(append([]byte(nil), exp.Bytes()...), []byte("\nfunc leftover() {}\n")...), 0o644)
+			case "directory":
+				os.Remove(path)
+				os.Mkdir(path, 0o755)
+			}
+			err, p := guardErr(func() error { return f.Save(path) })
+			faults++
+			r.Count("save.second_save_after_target_"+change, 1)
+			got, rerr := os.ReadFile(path)
+			switch {
+			case p != "":
+				viol("panic", "second Save (target %s in between) panicked: %s", change, p)
+			case change == "directory":
+				if err == nil {
+					viol("save-error-swallowed", "the same File saved again after its target was replaced by a directory: Save returned nil")
+				}
+			case err != nil:
+				viol("save-failed", "second Save (target %s in between) failed: %v", change, err)
+			case rerr != nil || !bytes.Equal(got, exp.Bytes()):
+				viol("saved-content-differs", "the same File saved again after its target was %s: Save returned nil but the file does not hold the rendered output (%d bytes on disk, %d rendered, read error %v)", change, len(got), exp.Len(), rerr)
+			}
+			os.RemoveAll(path)
+		}
+	}
 	// Save with an injected render error over an existing file
 	if hooksAvailable && t.nodes > 0 && t.valid {
 		path := fresh("keep.go")
